@@ -185,12 +185,15 @@ pub struct Exec {
     pub n_custom: usize,
     /// custom id of the operation that produced each slot (if it is a custom operation result)
     pub custom_of_slot: Vec<Option<usize>>,
+    /// explicit seeds handed to `backward` are kept by the caller (a clone and a reshaped view of each): a pass that
+    /// changed one of them is recorded here (judged by C08 only)
+    pub seed_mutations: Vec<String>,
 }
 
 impl Exec {
     pub fn new() -> Exec {
         let acts = SHARED_ACTS.with(|s| s.borrow().clone()).unwrap_or_else(Acts::fresh);
-        Exec { acts, slots: Vec::new(), log: Rc::new(RefCell::new(Vec::new())), n_custom: 0, custom_of_slot: Vec::new() }
+        Exec { acts, slots: Vec::new(), log: Rc::new(RefCell::new(Vec::new())), n_custom: 0, custom_of_slot: Vec::new(), seed_mutations: Vec::new() }
     }
     pub fn get(&self, h: usize) -> &Array {
         self.slots[h].as_ref().expect("dead slot")
@@ -330,7 +333,18 @@ impl Exec {
                     }
                 }
                 let seed = seed.as_ref().map(|s| arr(a.dimensions(), s));
+                // the caller keeps its seed: a clone and a flat view of it must read the same afterwards
+                let kept = seed.as_ref().map(|s| (s.clone(), s.reshape(vec![s.values().len()]), s.values().iter().map(|v| (*v as f64).to_bits()).collect::<Vec<u64>>()));
                 guarded(|| a.backward(seed))?;
+                if let Some((c, v, bits)) = kept {
+                    for (what, arr_) in [("the seed", &c), ("a reshaped view of the seed", &v)] {
+                        let now: Vec<u64> = arr_.values().iter().map(|x| (*x as f64).to_bits()).collect();
+                        if now != bits {
+                            let i = now.iter().zip(&bits).position(|(p, q)| p != q).unwrap_or(0);
+                            self.seed_mutations.push(format!("{} handed to backward changed during the pass: element {} was {:?}, is {:?}", what, i, bits.get(i).map(|b| f64::from_bits(*b)), now.get(i).map(|b| f64::from_bits(*b))));
+                        }
+                    }
+                }
             }
             Step::ReadGrad { h } => {
                 let g = guarded(|| self.get(*h).gradient().clone())?;
@@ -348,6 +362,13 @@ impl Exec {
                 let a = self.get(*h);
                 let c = Array::from((a.dimensions().to_vec(), a.values().to_vec()));
                 self.push(Some(c));
+            }
+            Step::RefusedOp { h } => {
+                let a = self.get(*h);
+                let fw: corgi::array::ForwardOp = Rc::new(|_x: &[&Array]| panic!("this custom operation refuses its operands"));
+                let bw: corgi::array::BackwardOp = Rc::new(|_c, _t, d| vec![Some(Array::from((d.dimensions().to_vec(), d.values().to_vec())))]);
+                // the refusal is the expected outcome; a call that returns is dropped
+                let _ = guarded(|| drop(Array::op(&[a], fw, Some(bw))));
             }
             Step::ProbeSole { h } => {
                 let a = self.slots[*h].take().expect("dead slot");
@@ -416,4 +437,36 @@ pub fn branch_guard(m: &refmodel::model::RefState, ex: &Exec, s: &Step) -> Optio
         }
     }
     None
+}
+
+/// Calls that the library refuses (each inside `guarded`, results ignored) on throw-away arrays: a mismatching
+/// element-wise pair, a reshape to another element count, nested arrays of different shapes, a matmul with a
+/// mismatching inner dimension, a pass whose seed does not fit its result, a custom operation whose forward closure
+/// panics, a cost on incompatible arrays. None of them may leave anything behind that a later, valid computation on
+/// OTHER arrays in the same thread can observe (the arrays involved here are dropped).
+pub fn refused_calls_battery() -> usize {
+    let mut refused = 0;
+    let mut tally = |r: Result<(), String>| {
+        if r.is_err() {
+            refused += 1;
+        }
+    };
+    tally(guarded(|| drop(&arr(&[2, 3], &[1.0; 6]) * &arr(&[2, 4], &[1.0; 8]))));
+    tally(guarded(|| drop(arr(&[6], &[1.0; 6]).reshape(vec![4, 2]))));
+    tally(guarded(|| drop(Array::from(vec![arr(&[2], &[1.0, 2.0]), arr(&[3], &[1.0, 2.0, 3.0])]))));
+    tally(guarded(|| drop(Array::matmul((&arr(&[2, 3], &[1.0; 6]), false), (&arr(&[2, 2], &[1.0; 4]), false), None))));
+    tally(guarded(|| {
+        let a = arr(&[2], &[1.0, 2.0]).tracked();
+        let b = arr(&[2], &[3.0, 4.0]).tracked();
+        let y = &a * &b;
+        y.backward(Some(arr(&[3], &[1.0, 2.0, 3.0])));
+    }));
+    tally(guarded(|| {
+        let a = arr(&[2], &[1.0, 2.0]).tracked();
+        let fw: corgi::array::ForwardOp = Rc::new(|_x: &[&Array]| panic!("this custom operation refuses its operands"));
+        let bw: corgi::array::BackwardOp = Rc::new(|_c, _t, d| vec![Some(Array::from((d.dimensions().to_vec(), d.values().to_vec())))]);
+        drop(Array::op(&[&a], fw, Some(bw)));
+    }));
+    tally(guarded(|| drop((corgi::cost::mse())(&arr(&[2, 3], &[1.0; 6]), &arr(&[4], &[1.0; 4])))));
+    refused
 }
